@@ -196,6 +196,10 @@ CYCLES = {
     "long: open, close by oversize reduce-only stop": ([("buy", "q1", "p1", False), ("sell", "BIG", "x1", True)], "long"),
     "long: open, close with one market order": ([("buy", "q1", "p1", False), ("sell", "ALL1", "x1", False)], "long"),
     "long: open, partial take-profit, oversize (full-size) reduce-only stop": ([("buy", "q1", "p1", False), ("sell", "r1", "x1", True), ("sell", "ALL1", "x2", True)], "long"),
+    # the mirrored cycles: the clamp of an oversize exit must not depend on the side
+    "short: open, close by oversize reduce-only stop": ([("sell", "q1", "p1", False), ("buy", "BIG", "x1", True)], "short"),
+    "short: open, close with one market order": ([("sell", "q1", "p1", False), ("buy", "ALL1", "x1", False)], "short"),
+    "short: open, partial take-profit, oversize (full-size) reduce-only stop": ([("sell", "q1", "p1", False), ("buy", "r1", "x1", True), ("buy", "ALL1", "x2", True)], "short"),
 }
 SAMPLE = {"q1": F(2), "q2": F(1), "r1": F(1), "p1": F(10), "p2": F(12), "x1": F(13), "x2": F(9), "f": F(1, 100),
           "Wt": F(1000), "lev": F(2), "cp": F(11), "t0": F(0), "t1": F(60000), "t2": F(120000), "t3": F(180000), "t4": F(240000), "big": F(5)}
